@@ -46,6 +46,7 @@ inductive Ast
   | include (names : List Bytes) (dot : Bool)
   | exit
   | region (kind : Bytes) (body : List Ast)
+  | rtag (kind : Bytes) (end_ : Bool)
   deriving Repr, Inhabited
 
 namespace AstDec
@@ -171,6 +172,9 @@ partial def pAst : P Ast := do
   | "region" => do
     let kind ← tok; let body ← pList
     pure (.region (plain kind) body)
+  | "rtag" => do
+    let kind ← tok; let e ← pBool
+    pure (.rtag (plain kind) e)
   | _ => failure
 end
 
